@@ -1,6 +1,6 @@
 """Bounded stand-in for src/main.rs (clap parsing, TXTPP_FILE guard, exit code), which Verus cannot reach
 (`ExitCode::SUCCESS/FAILURE`, derive macros, process environment).  The `txtpp` binary is built from the tree under check
-and run on a fixed list of small projects; each expectation is tagged with the properties it speaks about.  The four
+and run on a fixed list of small projects (10 scenarios); each expectation is tagged with the properties it speaks about.  The four
 `apply_to` functions of main.rs are under a deductive contract (unit U16); this only covers `main` itself."""
 import json
 import os
@@ -124,6 +124,29 @@ def run(repo, out):
     expect(rc == 0 and read("a.txt") == b"a\n" and read("c.txt") is None, ["C11"], "only the requested source is processed", ["a.txt"], f"exit {rc}, c.txt={read('c.txt')!r}")
     rc = txtpp(["nothere.txt"])
     expect(rc not in (0, "timeout"), ["C11", "C04"], "an input without a source is an error", ["nothere.txt"], f"exit {rc}")
+    # 10. a write the system cuts short (file-size limit of 4 KiB, SIGXFSZ ignored): success is only reported for complete files
+    def limited(args):
+        import shlex
+        cmd = "trap '' XFSZ; ulimit -f 8; exec " + " ".join(shlex.quote(a) for a in [exe] + args)
+        env = dict(os.environ)
+        env.pop("TXTPP_FILE", None)
+        try:
+            return subprocess.run(["sh", "-c", cmd], cwd=work, env=env, stdout=subprocess.PIPE, stderr=subprocess.PIPE, timeout=60).returncode
+        except subprocess.TimeoutExpired:
+            return "timeout"
+    body = (b"y" * 63 + b"\n") * 2048
+    tbody = b"".join(b"-" + b"z" * 62 + b"\n" for _ in range(2048))
+    for args in ([], ["-N"]):
+        fresh({"big.txt.txtpp": body})
+        rc = limited(args)
+        got = read("big.txt")
+        expect(rc != "timeout" and (rc != 0 or got == body), ["C04"], "a build whose output could not be written completely does not exit with status 0",
+               args, f"exit {rc}, big.txt has {len(got) if got is not None else None} of {len(body)} bytes")
+    fresh({"t.txt.txtpp": b"-TXTPP#temp big.tmp\n" + tbody + b"end\n"})
+    rc = limited([])
+    got = read("big.tmp")
+    expect(rc != "timeout" and (rc != 0 or (got is not None and len(got) == len(tbody) - 2048 - 1)), ["C04"],
+           "a build whose temp file could not be written completely does not exit with status 0", [], f"exit {rc}, big.tmp has {len(got) if got is not None else None} bytes")
     shutil.rmtree(work, ignore_errors=True)
     return {"mode": "cli", "checked": checked, "failures": failures, "wall_s": round(time.time() - t0, 2),
-            "bound": "the txtpp binary built from the tree under check on 9 fixed command-line scenarios (exit status of success / failure / verify, -N, clean, -n, TXTPP_FILE guard, -j 0, input selection, -r)"}
+            "bound": "the txtpp binary built from the tree under check on 10 fixed command-line scenarios (exit status of success / failure / verify, -N, clean, -n, TXTPP_FILE guard, -j 0, input selection, -r, writes cut short by a 4 KiB file-size limit)"}
